@@ -66,7 +66,11 @@ impl Driver {
             ps.p2p = ch.chance(S_CFG, 1, 3);
             ps.master_only = !spec.slave_only && ch.chance(S_CFG, 1, 5);
             ps.segment = Some(seg);
-            ps.acceptable = if ch.chance(S_CFG, 1, 4) { Some(vec![BETTER_ID, OWN_ID]) } else { None };
+            ps.acceptable = match ch.choose(S_CFG, 8) {
+                1 => Some(vec![BETTER_ID, OWN_ID]),
+                2 => Some(vec![BETTER_ID]),
+                _ => None,
+            };
             ps.filter = if cfg.recording_filter {
                 FilterKind::Recording { mean_delay_units: Some(100 * US as i128) }
             } else if ch.chance(S_CFG, 1, 4) {
